@@ -1,5 +1,6 @@
 import Scico.Common.Wire
 import Scico.Model.Adjoint
+import Scico.Model.AdjointTy
 open Lean Scico.Wire Scico.Adjoint
 
 abbrev C := Cx Float
@@ -126,6 +127,128 @@ def probe (f : V C → V C) (n m : Nat) : Json :=
       jArr ((List.range m).map (fun i => jC (v i))))
   jObj [("one", jArr (cols ⟨1, 0⟩)), ("i", jArr (cols ⟨0, 1⟩))]
 
+
+/-! ### dtype / shape layer (`Scico/Model/AdjointTy.lean`) -/
+
+def dtOf? : String → Option DT
+  | "float32" => some .f32
+  | "float64" => some .f64
+  | "complex64" => some .c64
+  | "complex128" => some .c128
+  | _ => none
+
+def dtName : DT → String
+  | .f32 => "float32"
+  | .f64 => "float64"
+  | .c64 => "complex64"
+  | .c128 => "complex128"
+
+def shpOf? (j : Json) : Option Shp :=
+  match fNats? j "arr" with
+  | some d => some (.arr d)
+  | none => (field? j "blk").bind (getListOf? getNats?) |>.map .blk
+
+def jShp : Shp → Json
+  | .arr d => jObj [("arr", jNs d)]
+  | .blk bs => jObj [("blk", jArr (bs.map jNs))]
+
+def tyOf? (j : Json) : Option Ty := do
+  let dt ← (fStr? j "dt").bind dtOf?
+  let sh ← (field? j "sh").bind shpOf?
+  some ⟨dt, sh⟩
+
+def jTy (t : Ty) : Json := jObj [("dt", jS (dtName t.dt)), ("sh", jShp t.sh)]
+
+def rOf? (j : Json) : Option R :=
+  match field? j "ok" with
+  | some t => (tyOf? t).map .ok
+  | none =>
+    match fStr? j "err" with
+    | some "dtype" => some (.error .dtype)
+    | some "shape" => some (.error .shape)
+    | some _ => some (.error .other)
+    | none => none
+
+def jR : R → Json
+  | .ok t => jObj [("ok", jTy t)]
+  | .error .dtype => jObj [("err", jS "dtype")]
+  | .error .shape => jObj [("err", jS "shape")]
+  | .error .other => jObj [("err", jS "other")]
+
+def tabOf? (j : Json) (k : String) : Option (List (Ty × R)) := do
+  let l ← fList? j k
+  l.mapM (fun e => do
+    let x ← (field? e "x").bind tyOf?
+    let r ← (field? e "r").bind rOf?
+    some (x, r))
+
+def parseTLeaf (j : Json) : Option TOp := do
+  let ish ← (field? j "ish").bind shpOf?
+  let osh ← (field? j "osh").bind shpOf?
+  let idt ← (fStr? j "idt").bind dtOf?
+  let odt ← (fStr? j "odt").bind dtOf?
+  let g ← fBool? j "guard"
+  let et ← tabOf? j "eval"
+  let at_ ← tabOf? j "adj"
+  some { ish := ish, osh := osh, idt := idt, odt := odt, guard := g, evalT := tableFn et, adjT := tableFn at_ }
+
+def skOf? (j : Json) : Option SK :=
+  match fStr? j "sk" with
+  | some "wreal" => some .wreal
+  | some "wcplx" => some .wcplx
+  | some s => (dtOf? s).map .strong
+  | none => none
+
+partial def parseTExpr (j : Json) : Option TExpr := do
+  let k ← fStr? j "k"
+  let sub (name : String) : Option TExpr := (field? j name).bind parseTExpr
+  match k with
+  | "leaf" => some (.leaf (← fNat? j "i"))
+  | "add" => some (.add (← sub "a") (← sub "b"))
+  | "sub" => some (.sub (← sub "a") (← sub "b"))
+  | "neg" => some (.neg (← sub "a"))
+  | "smul" => some (.smul (← skOf? j) (← sub "a"))
+  | "sdiv" => some (.sdiv (← skOf? j) (← sub "a"))
+  | "comp" => some (.comp (← sub "a") (← sub "b"))
+  | "T" => some (.tr (← sub "a"))
+  | "H" => some (.herm (← sub "a"))
+  | "conj" => some (.cj (← sub "a"))
+  | "gram" => some (.gram (← sub "a"))
+  | "vstack" =>
+    let ops ← (← fList? j "ops").mapM parseTExpr
+    let co ← fBool? j "co"
+    match ops.reverse with
+    | [] => none
+    | last :: rest =>
+      let chain := rest.foldl (fun s a => TExpr.vcons a s) (.vone last)
+      some (if co then .vfin chain else chain)
+  | "dstack" =>
+    let ops ← (← fList? j "ops").mapM parseTExpr
+    let ci ← fBool? j "ci"
+    let co ← fBool? j "co"
+    match ops.reverse with
+    | [] => none
+    | last :: rest =>
+      let chain := rest.foldl (fun s a => TExpr.dcons a s) (.done last)
+      some (if ci || co then .dfin ci co chain else chain)
+  | "drep" => some (.drep (← fNat? j "rep") (← fNat? j "ia") (← fNat? j "oa") (← sub "a"))
+  | _ => none
+
+def typesHandler (j : Json) : Option Json := do
+  let leaves ← (← fList? j "leaves").mapM parseTLeaf
+  let arr := leaves.toArray
+  let dflt : TOp := { ish := .arr [], osh := .arr [], idt := .f32, odt := .f32, guard := true,
+                      evalT := fun _ => .error .other, adjT := fun _ => .error .other }
+  let env : Nat → TOp := fun i => arr.getD i dflt
+  let t ← (field? j "tree").bind parseTExpr
+  let coded ← fBool? j "coded"
+  let px ← (← fList? j "probe_x").mapM tyOf?
+  let py ← (← fList? j "probe_y").mapM tyOf?
+  let A := runT coded env t
+  some (ok (jObj [("wf", jB (wfT coded env t)), ("homog", jB (homog coded env t)),
+    ("ish", jShp A.ish), ("osh", jShp A.osh), ("idt", jS (dtName A.idt)), ("odt", jS (dtName A.odt)),
+    ("call", jArr (px.map (fun x => jR (A.call x)))), ("adj", jArr (py.map (fun y => jR (A.adjC y))))]))
+
 def handler : Handler := fun op j =>
   match op with
   | "derive" => do
@@ -138,6 +261,15 @@ def handler : Handler := fun op j =>
       let A := run env e
       some (ok (jObj [("nin", jN A.nin), ("nout", jN A.nout),
         ("eval", probe A.eval A.nin A.nout), ("adj", probe A.adj A.nout A.nin)]))
+  | "types" => typesHandler j
+  | "smulre" => do
+    -- complex scalar times an operator with a real output space: `Op.smulRe` on one measured leaf
+    let leaves ← (← fList? j "leaves").mapM parseLeaf
+    let A0 ← leaves.head?
+    let c ← cfield? j "c"
+    let A := Op.smulRe (fun z => (⟨z.re, 0⟩ : C)) c A0
+    some (ok (jObj [("nin", jN A.nin), ("nout", jN A.nout),
+      ("eval", probe A.eval A.nin A.nout), ("adj", probe A.adj A.nout A.nin)]))
   | "ip" => do
     -- the pairing itself (tie of `ip` with `snp.sum(y.conj() * u)` of valid_adjoint)
     let n ← fNat? j "n"
